@@ -1,88 +1,62 @@
-(* What changes if the two fixes drafted in /verif/proposed_fixes/C10-*.diff
-   are applied: the modified decoders (defined here, not part of the model of
-   the current code) satisfy the C10 statements WITHOUT a guard. *)
-From Coq Require Import NArith ZArith List Bool Lia ZifyBool ZifyNat ZifyN.
-From NGS Require Import Val Ints Words Arr4 CSegEncode CSegDecode JpegGlue
-     WordsProofs Arr4Proofs CSegDecodeProofs.
+(* Historical record.  Before /repo commits a6dbfd3 and 95d7b2e the two
+   decoders below were the faithful models; they are NOT the model of the
+   current code (that is CSegDecode.v / JpegGlue.v, for which
+   CSegDecodeProofs.cseg_decode_total and jpeg_glue_total hold without a
+   guard).  The witnesses show what the two fixes repaired. *)
+From Coq Require Import NArith ZArith List Bool Lia.
+From NGS Require Import Val Ints Words Arr4 CSegEncode CSegDecode JpegGlue.
 Import ListNotations.
 Open Scope Z_scope.
 
-(* C10-cseg-short-channel-struct-error.diff: every channel reads buf[offset:] *)
-Fixpoint decode_channels_fixed (dt : dtype) (buf : list N) (B nblk : N) (offs : list Z)
+(* before a6dbfd3: channel c was confined to buf[offset : next_offset] *)
+Fixpoint decode_channels_old (dt : dtype) (buf : list N) (B nblk : N) (offs : list Z)
   : outcome (list (list (list N))) :=
   match offs with
   | [] => Ok []
   | off :: rest =>
       if zlen buf <? off + 8 * Z.of_N nblk then FormatErr else
-      let cbuf := py_slice buf off (zlen buf) in
+      let cbuf := match rest with
+                  | [] => py_slice buf off (zlen buf)
+                  | next :: _ => py_slice buf off next
+                  end in
       bind (decode_channel dt cbuf B nblk) (fun blocks =>
-      bind (decode_channels_fixed dt buf B nblk rest) (fun more => Ok (blocks :: more)))
+      bind (decode_channels_old dt buf B nblk rest) (fun more => Ok (blocks :: more)))
   end.
 
-Definition cseg_decode_fixed (dt : dtype) (nc : N) (g : geom) (cx cy cz : N) (buf : list N)
+Definition cseg_decode_old (dt : dtype) (nc : N) (g : geom) (cx cy cz : N) (buf : list N)
   : outcome arr4 :=
   if ((g_bx g =? 0) || (g_by g =? 0) || (g_bz g =? 0))%N then Crash ZeroDivisionError else
   let nblk := (cdiv cx (g_bx g) * cdiv cy (g_by g) * cdiv cz (g_bz g))%N in
   let B := (g_bx g * g_by g * g_bz g)%N in
   if zlen buf <? Z.of_N (nc * (4 + 8 * nblk)) then FormatErr else
-  bind (decode_channels_fixed dt buf B nblk (channel_offsets buf nc)) (fun chans =>
+  bind (decode_channels_old dt buf B nblk (channel_offsets buf nc)) (fun chans =>
   Ok (assemble nc cz cy cx g chans)).
 
-Lemma decode_channels_fixed_no_crash dt buf B nblk offs :
-  Forall (fun o => 0 <= o) offs ->
-  is_crash (decode_channels_fixed dt buf B nblk offs) = false.
-Proof.
-  induction offs as [|off rest IH]; intros Hpos; [reflexivity|].
-  cbn [decode_channels_fixed].
-  destruct (Z.ltb_spec (zlen buf) (off + 8 * Z.of_N nblk)) as [|Hlen]; [reflexivity|].
-  inversion Hpos as [|? ? Hoff Hrest]; subst.
-  apply is_crash_bind.
-  - apply decode_channel_no_crash. rewrite py_slice_length. unfold py_norm.
-    destruct (Z.ltb_spec off 0); [lia|]. destruct (Z.ltb_spec (zlen buf) 0); lia.
-  - intros blocks _. apply is_crash_bind; [|reflexivity]. now apply IH.
-Qed.
+(* two channels, 1x1x1 chunk and block, second channel offset (0) before the
+   first (2): struct.error before the fix, the format error now *)
+Definition old_witness : list N :=
+  [2; 0; 0; 0;  0; 0; 0; 0;  0; 0; 0; 0;  0; 0; 0; 0;
+   0; 0; 0; 0;  0; 0; 0; 0;  0; 0; 0; 0;  0; 0; 0; 0]%N.
 
-Theorem cseg_decode_fixed_total dt nc g cx cy cz buf :
-  (g_bx g <> 0 /\ g_by g <> 0 /\ g_bz g <> 0)%N ->
-  forall k, cseg_decode_fixed dt nc g cx cy cz buf <> Crash k.
-Proof.
-  intros (Hx & Hy & Hz) k Hc.
-  assert (Hn : is_crash (cseg_decode_fixed dt nc g cx cy cz buf) = false);
-    [|rewrite Hc in Hn; discriminate].
-  clear Hc. unfold cseg_decode_fixed.
-  destruct (N.eqb_spec (g_bx g) 0); [contradiction|].
-  destruct (N.eqb_spec (g_by g) 0); [contradiction|].
-  destruct (N.eqb_spec (g_bz g) 0); [contradiction|]. cbn [orb].
-  destruct (zlen buf <? _); [reflexivity|].
-  apply is_crash_bind; [|reflexivity].
-  apply decode_channels_fixed_no_crash, channel_offsets_nonneg.
-Qed.
+Lemma cseg_decode_old_crashed :
+  cseg_decode_old U32 2 {| g_bx := 1; g_by := 1; g_bz := 1 |} 1 1 1 old_witness = Crash StructError.
+Proof. vm_compute. reflexivity. Qed.
 
-(* the fixed decoder agrees with the current one wherever the current one's
-   channel buffers are not cut short AND end where the next channel begins or
-   later -- in particular on everything the encoder produces, whose channels
-   are contiguous; stated here for single-channel files, where the two
-   definitions coincide syntactically *)
-Lemma cseg_decode_fixed_same_1 dt g cx cy cz buf :
-  cseg_decode_fixed dt 1 g cx cy cz buf = cseg_decode dt 1 g cx cy cz buf.
-Proof. reflexivity. Qed.
+Lemma cseg_decode_now_on_old_witness :
+  exists a, cseg_decode U32 2 {| g_bx := 1; g_by := 1; g_bz := 1 |} 1 1 1 old_witness = Ok a.
+Proof. eexists. vm_compute. reflexivity. Qed.
 
-(* C10-jpeg-load-oserror.diff: a failing pixel load becomes the format error *)
-Definition jpeg_decode_fixed (nc cx cy cz : N) (r : pil_result) : outcome arr4 :=
+(* before 95d7b2e: a failing pixel load let Pillow's OSError escape *)
+Definition jpeg_decode_old (nc cx cy cz : N) (r : pil_result) : outcome arr4 :=
   match r with
   | Opened mode w h LoadFail =>
       if (nc =? 1)%N && negb (list_eqb mode mode_L) then FormatErr
       else if (nc =? 3)%N && negb (list_eqb mode mode_RGB) then FormatErr
-      else FormatErr
+      else IOErr
   | _ => jpeg_decode nc cx cy cz r
   end.
 
-Theorem jpeg_decode_fixed_total nc cx cy cz r :
-  jpeg_decode_fixed nc cx cy cz r = FormatErr \/
-  exists a, jpeg_decode_fixed nc cx cy cz r = Ok a /\ same_shape a nc cz cy cx.
-Proof.
-  destruct r as [|mode w h [|bands px]].
-  - now left.
-  - left. cbn [jpeg_decode_fixed]. destruct (_ && _); [reflexivity|]. destruct (_ && _); reflexivity.
-  - apply jpeg_glue_on_guard. reflexivity.
-Qed.
+Lemma jpeg_decode_old_escaped :
+  jpeg_decode_old 1 2 2 2 (Opened mode_L 2 4 LoadFail) = IOErr /\
+  jpeg_decode 1 2 2 2 (Opened mode_L 2 4 LoadFail) = FormatErr.
+Proof. split; reflexivity. Qed.
